@@ -235,6 +235,7 @@ def _check_filter(item: dict, res: List[dict]) -> None:
         best = next((o for o in outcomes if o["leaves"] is None and o["structure"] == "discharged"), outcomes[0])
         dt = round(sum(o["solver_s"] for o in outcomes), 4)
         core_sql = best["core_sql"]
+        core_od_used = best.get("core_od", core_od)
         if best["leaves"]:
             emit("leaves", "violation", what=f"leaf multiset differs: {best['leaves']}",
                  witness={"filter": text, "term": term, "dialect": dialect, "alias": None, "sql": sql,
@@ -256,7 +257,7 @@ def _check_filter(item: dict, res: List[dict]) -> None:
             ctx, m = best["ctx"], best["model"]
             ev = U.ModelEval(ctx, m)
             try:
-                sv, ov = ev.ev(core_sql), ev.ev(core_od)
+                sv, ov = ev.ev(core_sql), ev.ev(core_od_used)
             except Exception as e:                            # noqa: BLE001
                 emit("structure", "harness_error", solver_s=dt, why=f"evaluator failed: {type(e).__name__}: {e}")
                 continue
@@ -264,7 +265,10 @@ def _check_filter(item: dict, res: List[dict]) -> None:
             lits = {str(s): ev.ev(("ilit", s))[1] for s in sent}
             w = {"filter": text, "term": term, "dialect": dialect, "alias": None, "sql": sql, "field_values": fields,
                  "literal_values": lits, "sql_tree_value": ev.show(sv), "filter_tree_value": ev.show(ov),
-                 "sql_core": repr(core_sql), "filter_core": repr(core_od)}
+                 "sql_core": repr(core_sql), "filter_core": repr(core_od_used)}
+            if best.get("tree_only"):
+                w["note"] = ("same value over the integers, different tree: the arithmetic operators are read as uninterpreted "
+                             "(non-associative) symbols for this obligation")
             st2, sql2 = tv.real_sql(text, dialect)
             same = (sv[1] is None and ov[1] is None) or (sv[1] is not None and ov[1] is not None and _pyeq(sv, ov))
             if st2 != "ok" or sql2 != sql:
@@ -280,11 +284,25 @@ def _check_filter(item: dict, res: List[dict]) -> None:
 
 
 def _decide(core_od, core_sql, sent: List[int], timeout_ms: int) -> dict:
-    """Leaves + structure verdict of one reading of the SQL tree."""
-    out: Dict[str, Any] = {"core_sql": core_sql, "leaves": _leaf_mismatch(core_od, core_sql, sent), "solver_s": 0.0,
-                           "why": None}
+    """Leaves + structure verdict of one reading of the SQL tree: first the VALUE obligation (arithmetic interpreted, so
+    template index shifts cancel), then - if it holds and there are at least two arithmetic operators - the TREE
+    obligation with + - * / % uninterpreted (a regrouping of associative operators keeps the value, not the tree)."""
+    out = _decide1(core_od, core_sql, sent, timeout_ms, False)
+    if out["structure"] == "discharged" and U.arith_ops(core_od) + U.arith_ops(core_sql) >= 3:
+        o2 = _decide1(U.strip_shifts(core_od), U.strip_shifts(core_sql), sent, timeout_ms, True)
+        o2["solver_s"] += out["solver_s"]
+        o2["leaves"] = out["leaves"]
+        if o2["structure"] != "discharged":
+            o2["tree_only"] = True
+            return o2
+    return out
+
+
+def _decide1(core_od, core_sql, sent: List[int], timeout_ms: int, uf_arith: bool) -> dict:
+    out: Dict[str, Any] = {"core_sql": core_sql, "core_od": core_od, "leaves": _leaf_mismatch(core_od, core_sql, sent),
+                           "solver_s": 0.0, "why": None}
     try:
-        ctx = U.UFContext(G.FIELDS_FULL, sent)
+        ctx = U.UFContext(G.FIELDS_FULL, sent, uf_arith=uf_arith)
         vo = U.core_to_z3(core_od, ctx)
     except U.NoTemplate as e:
         out.update(structure="outside", why=f"filter outside the template table: {e}")
@@ -409,6 +427,10 @@ def main() -> int:
             run.notes.append(f"known finding {rid!r} no longer reproduces ({what}); its region is NOT excluded")
 
     items, info = build_terms(run.tier, run.seed)
+    extra = tv.discover_extra_alphabet(DIALECTS)          # characters the visitors introduce themselves (ESCAPE '!')
+    info["adaptive_alphabet"] = extra
+    for fam, term in G.adaptive_family(extra):
+        items.append({"name": f"f{len(items)}", "family": fam, "term": term})
     for it in items:
         it["regions"] = active
         it["timeout_ms"] = 10000 if quick else 60000
